@@ -41,7 +41,11 @@ AUTH_CASES = [("rsa", a, b, dis) for a in AUTH_DECL for b in RSA_ALGOS for dis i
 # same host key (a verifier that trusts what it checked in the first exchange must not skip the check then)
 REKEY_CASES = [("rsa", n, b, dis) for n in RSA_ALGOS for b in RSA_ALGOS for dis in (False, True)] + \
               [("ec", n, b, False) for n in EC_ALGOS for b in EC_ALGOS if b != n][:6] + [("ec", n, n, False) for n in EC_ALGOS]
-CASES = [("host",) + c for c in HOST_CASES] + [("auth",) + c for c in AUTH_CASES] + [("host-rekey",) + c for c in REKEY_CASES]
+# a server whose host key is an OpenSSH certificate: the negotiated name is a certificate type, the signature algorithm
+# that has to be used is that name without the certificate suffix
+HOST_CERT_CASES = [("rsa", n + CERT, b, dis) for n in RSA_ALGOS for b in RSA_ALGOS for dis in (False, True)]
+CASES = [("host",) + c for c in HOST_CASES] + [("auth",) + c for c in AUTH_CASES] + [("host-rekey",) + c for c in REKEY_CASES] + \
+        [("host-cert",) + c for c in HOST_CERT_CASES]
 BUDGET = {"quick": {"runs": len(CASES) * 4, "wall": 55}, "thorough": {"runs": len(CASES) * 150, "wall": 560}}
 EXHAUSTIVE = True
 RULE = ("Enumerated: every (negotiated/declared algorithm, signature algorithm) pair for RSA incl. certificate "
@@ -50,7 +54,8 @@ RULE = ("Enumerated: every (negotiated/declared algorithm, signature algorithm) 
 COMPONENTS = {"real": ["victim Transport/AuthHandler/key classes unmodified", "adversary: real Transport whose host key "
                        "object / outgoing USERAUTH_REQUEST signs with another algorithm"],
               "simulated": ["socket", "clock", "scheduling", "entropy"]}
-ASSUMPTIONS = ["Host-key certificates are not offered by paramiko's server mode, so certificate forms are enumerated on the user-auth side only."]
+ASSUMPTIONS = ["paramiko's own server mode does not present host-key certificates; the host-cert cases use an adversary key object "
+               "that presents the certificate blob as K_S (victim: the unmodified client)"]
 HKEY = {"ssh-rsa": "rsa1", "rsa-sha2-256": "rsa1", "rsa-sha2-512": "rsa1", "ecdsa-sha2-nistp256": "ecdsa256_1",
         "ecdsa-sha2-nistp384": "ecdsa384_1", "ecdsa-sha2-nistp521": "ecdsa521_1", "ssh-ed25519": "ed25519_1"}
 RSA_HASH = {"ssh-rsa": hashes.SHA1, "rsa-sha2-256": hashes.SHA256, "rsa-sha2-512": hashes.SHA512}
@@ -106,6 +111,8 @@ def scenario(sim):
         return host_case(sim, link, case)
     if case[0] == "host-rekey":
         return host_rekey_case(sim, link, case)
+    if case[0] == "host-cert":
+        return host_cert_case(sim, link, case)
     return auth_case(sim, link, case)
 
 
@@ -158,6 +165,49 @@ def host_rekey_case(sim, link, case):
     sim.probe("rekey_accepted" if ok else "rekey_rejected")
     p.close()
     return {"sample": desc, "case_key": repr(case), "nontrivial": True, "counts": ["host-rekey"]}
+
+
+class CertHostKey(RSAKey):
+    """Adversary host key: presents its certificate as K_S and signs with algorithm `sub`."""
+    sub = None
+
+    def asbytes(self):
+        return self.public_blob.key_blob
+
+    def sign_ssh_data(self, data, algorithm=None):
+        return RSAKey.sign_ssh_data(self, data, self.sub)
+
+
+def host_cert_case(sim, link, case):
+    _, fam, N, B, dis = case
+    plain = N[:-len(CERT)]
+    hk = CertHostKey.from_private_key_file(os.path.join(ssh.KEYDIR, "cert_rsa.key"))
+    hk.load_certificate(os.path.join(ssh.KEYDIR, "cert_rsa.key-cert.pub"))
+    hk.sub = B
+    ckw = {"disabled_algorithms": {"keys": [B]}} if (dis and B != plain) else {}
+    p = ssh.Pair(sim, link=link, host_keys=(), client_kw=ckw)
+    p.ts.server_key_dict = {N: hk}
+    ssh.configure(p.tc, hostkey_algo=N, kex="curve25519-sha256@libssh.org")
+    desc = {"side": "host-key certificate", "negotiated": N, "signature_algorithm": B, "B_disabled_on_client": dis}
+    err = None
+    try:
+        p.start(timeout=30)
+    except Exception as e:
+        err = e
+    done = p.tc.is_active() and p.tc.initial_kex_done
+    if done and p.tc.host_key_type != N:
+        raise RuntimeError("harness: negotiated %r instead of %r" % (p.tc.host_key_type, N))
+    expect = (B == plain)
+    if done and not expect:
+        raise Violation(("C07", "host-key-signature-algorithm-substituted", fam, "disabled" if dis else "enabled", "certificate"),
+                        "client completed the key exchange although %s was negotiated and the signature uses %s%s"
+                        % (N, B, " (which the client has disabled)" if dis else ""), desc)
+    if not done and expect:
+        raise Violation(("C07", "honest-host-key-signature-rejected", N),
+                        "client rejected a certificate host key's signature made with %s (negotiated: %s): %r" % (B, N, err), desc)
+    sim.probe("host_cert_accepted" if done else "host_cert_rejected")
+    p.close()
+    return {"sample": desc, "case_key": repr(case), "nontrivial": True, "counts": ["host-cert"]}
 
 
 def host_case(sim, link, case):
